@@ -35,7 +35,7 @@ func init() {
 	vf.Register(&vf.Check{
 		ID:    "C12",
 		Level: "exploration",
-		Rule: "each case is one stress run of a -race build: one Store (1-3 databases, file replicas behind a delaying ReplicaClient proxy, monitors at 1-5 ms, compaction/snapshot/retention monitors, control Server on a unix socket), 1-2 live application writers + read-mark pinning readers, 8-32 goroutines drawing from the C12 operation set, GOMAXPROCS in {2,4,16}; " +
+		Rule: "each case is one stress run of a -race build: one Store (1-3 databases, file replicas behind a delaying ReplicaClient proxy, monitors at 1-5 ms, compaction/snapshot/retention monitors, control Server on a unix socket), 1-2 live application writers + read-mark pinning readers, 8-32 goroutines drawing from the C12 operation set, GOMAXPROCS in {2,4,16} x proxy delay in {0,3,8,20} ms; a run is sized by completed calls (quick: >=10 s and >=1200 calls, wall cap 75 s; thorough: >=30 s and >=5000 calls, cap 180 s), the count reached is in the evidence; " +
 			"schedules are real (not replayable bit for bit): the seed fixes configuration and per-goroutine operation choices. " +
 			"distinct = hash(configuration); non-trivial = >=150 completed calls, >=40 distinct overlapping operation-type pairs, >=1 lock/fd probe executed and >=3 distinct ledger states among the restored TXIDs",
 		Assumptions: []string{
@@ -43,7 +43,7 @@ func init() {
 			"Go race detector (happens-before, reports only races that manifest in the schedules produced)",
 			"modernc SQLite in the same process is the probe connection (intra-process lock bookkeeping of the SQLite unix VFS trusted)",
 			"ltx decoder/LZ4 trusted; O-SRC, O-L0 and O-LEDGER as in DESIGN §2",
-			"stuck-operation is decided per operation: the same call in flight >=40 s and its goroutine (or the Server handler serving it) parked in an identical litestream lock-wait stack in two dumps 10 s apart; the global completed-call counter of the interval is recorded as evidence only (other goroutines keep completing calls while one is deadlocked)",
+			"stuck-operation is decided per operation: the same call in flight >=90 s and its goroutine (or the Server handler serving it) parked in an identical litestream lock-wait stack in two dumps 10 s apart; the global completed-call counter of the interval is recorded as evidence only (other goroutines keep completing calls while one is deadlocked)",
 			"restores per run are capped (quick: 90 TXIDs, 40 snapshots, 300 derived files per database; thorough: 240/100/800), evenly spaced; the number skipped is in the evidence",
 		},
 		Cases:       cases,
@@ -109,6 +109,9 @@ func cases(run *vf.Run) ([]json.RawMessage, error) {
 			L0RetMs:    50 + rng.Intn(150),
 			Verify:     rng.Intn(3) == 0,
 			Reset:      rng.Intn(2) == 0,
+		}
+		if os.Getenv("VERIF_C12_NO_RESET") != "" { // development aid: leave ResetLocalState out of the operation set
+			s.Reset = false
 		}
 		out = append(out, vf.Spec(s))
 	}
@@ -496,7 +499,7 @@ func runCase(run *vf.Run, raw json.RawMessage, dir string) *vf.Result {
 			}
 		}
 		if !confirmed && res.HarnessErr == "" {
-			res.HarnessErr = "a call stayed in flight for more than 50 s without a confirmed lock-wait (slow run => inconclusive)"
+			res.HarnessErr = "a call stayed in flight for more than 100 s without a confirmed lock-wait (slow run => inconclusive)"
 		}
 		return res
 	case exit != 0 || ferr != nil || !strings.HasPrefix(fin.Status, "ok"):
